@@ -150,7 +150,7 @@ def main():
         from jaxtyping import AbstractDtype
         users = {}
         for u in req.get("user", []):
-            pats = [re.compile(p["re"]) if "re" in p else p["str"] for p in u["pats"]]
+            pats = [re.compile(p["re"], p.get("flags", 0)) if "re" in p else p["str"] for p in u["pats"]]
             form = u.get("form", "list")
             val = pats if form == "list" else tuple(pats) if form == "tuple" else pats[0]
             users[u["name"]] = type(u["name"], (AbstractDtype,), {"dtypes": val})
